@@ -131,7 +131,7 @@ int MPI_Isend(const void *buf, int size, MPI_Datatype dt, int dest, int tag, MPI
 	    my_thr(), m->nm, kind, dest, t, id, sq, code, size);
 	if(req)
 		*req = MPI_REQUEST_NULL;
-	vs_yield(0, 20);
+	vs_yield(100, 1); /* observation point "a message entered the network" (a shared access for guided replays) */
 	return 0;
 }
 int MPI_Send(const void *buf, int size, MPI_Datatype dt, int dest, int tag, MPI_Comm c)
@@ -162,6 +162,13 @@ int MPI_Improbe(int src, int tag, MPI_Comm c, int *flag, MPI_Message *msg, MPI_S
 	(void)c;
 	vs_yield(0, 21);
 	int me = vs_self();
+	/* following a behaviour of the specification: a message is seen by the probe only when the behaviour says that this thread
+	 * receives now; until then it is still "in flight" */
+	int ge = vs_guide_expect();
+	if(ge >= 0 && ge != 101 && tag == 0) {
+		*flag = 0;
+		return 0;
+	}
 	/* a probe may miss messages that are still "in flight" (bounded so that progress is guaranteed) */
 	if(net_mode != 1 && miss_budget[me] < 3 && (vs_random() % 3) == 0) {
 		miss_budget[me]++;
@@ -211,6 +218,7 @@ int MPI_Mrecv(void *buf, int size, MPI_Datatype dt, MPI_Message *msg, MPI_Status
 	fprintf(out, "{\"n\":%lu,\"thr\":%d,\"e\":\"NetRecv\",\"nm\":%ld,\"from\":%d}\n", ++seqno, my_thr(), m->nm, m->src_thr);
 	free(m);
 	*msg = NULL;
+	vs_yield(101, 1); /* observation point "a message left the network" */
 	return 0;
 }
 int MPI_Get_count(const MPI_Status *st, MPI_Datatype dt, int *count)
